@@ -87,6 +87,10 @@ def check_spec(sp, labels, res, tmpdir, fmt=FMT, precision=4, prop="C02", reuse=
         seen.add((p, k))
         res.violation(f"{prop}|{p}|{k}", f"{list(labels)}: {path}: {detail}", case)
     res.outcomes["roundtrip-compared"] += 1
+    if reuse:
+        res.transitions += 5
+        for sig, detail in roundtrip.reuse_routes(w, sc, pps, sc, pps, fmt, precision, fn, already=seen):
+            res.violation(f"{prop}|{sig}", f"{list(labels)}: {detail}", case)
     return fn
 
 
